@@ -226,9 +226,11 @@ class HeapMixin:
             raise mk_exc(TypeError, "'NoneType' object is not subscriptable", where=fr.where())
         if isinstance(obj, PDict):
             if is_sym(key):
-                raise Unsupported("symbolic key into concrete dict")
+                return self.pdict_sym_get(obj, key, fr)
             if key in obj.items:
                 return obj.items[key]
+            if (obj.sym_entries or obj.base is not None) and isinstance(key, str):
+                return self.pdict_sym_get(obj, key, fr)
             raise mk_exc(KeyError, key, where=fr.where())
         if type(obj).__name__ == "Bottom":
             return obj
@@ -324,6 +326,8 @@ class HeapMixin:
                 self.ctx.assume(pred(el), "element fact")
         if seq.elem == "pair":
             return (mk_str(Pair.fst(el), "bytes"), mk_str(Pair.snd(el), "bytes"))
+        if seq.elem == "spair":  # pairs of text strings (WSGI response headers)
+            return (mk_str(Pair.fst(el), "str"), mk_str(Pair.snd(el), "str"))
         if seq.elem == "int":
             self.ctx.add_key(el)
             return mk_int(el)
@@ -340,8 +344,12 @@ class HeapMixin:
             obj = obj.value
         if isinstance(obj, PDict):
             if is_sym(key):
-                raise Unsupported("symbolic key store into concrete dict")
+                self.pdict_sym_store(obj, key, v, fr)
+                return
             obj.items[key] = v
+            if obj.sym_entries or obj.base is not None:
+                # a later concrete store wins over earlier symbolic ones with the same key
+                obj.sym_entries.append(("shadow", str_to_z3(key))) if isinstance(key, str) else None
             return
         if isinstance(obj, PList):
             if obj.sym is None and not is_sym(key):
@@ -441,7 +449,11 @@ class HeapMixin:
         if isinstance(obj, (SymStr, str)):
             e = str_to_z3(obj)
             lo_n, hi_n = self.norm_slice(z3.Length(e), lo, hi)
-            return mk_str(z3.SubString(e, z3_of_int(lo_n), z3_of_int(hi_n) - z3_of_int(lo_n)), kind_of_strlike(obj))
+            sub = z3.SubString(e, z3_of_int(lo_n), z3_of_int(hi_n) - z3_of_int(lo_n))
+            from .sym import s_ascii_ok as _ok
+
+            self.ctx.assume(z3.Implies(_ok(e), _ok(sub)))  # a slice of an ASCII string is ASCII
+            return mk_str(sub, kind_of_strlike(obj))
         if isinstance(obj, PList) and obj.sym is None and not is_sym(lo) and not is_sym(hi):
             return PList(obj.items[lo:hi])
         if isinstance(obj, (PList, SymSeq)):
@@ -476,12 +488,8 @@ class HeapMixin:
         if isinstance(container, (set, frozenset, list)):
             return self.contains(PSet(list(container)), item, fr)
         if isinstance(container, PDict):
-            if is_sym(item):
-                rs = [ops.eq(ctx, item, k) for k in container.items]
-                rs = [r for r in rs if r is not False]
-                if any(r is True for r in rs):
-                    return True
-                return z3.Or(*rs) if rs else False
+            if is_sym(item) or ((container.sym_entries or container.base is not None) and isinstance(item, str) and item not in container.items):
+                return self.pdict_sym_has(container, item)
             return item in container.items
         if isinstance(container, dict):
             return self.contains(PSet(list(container.keys())), item, fr)
@@ -515,13 +523,85 @@ class HeapMixin:
                 return model.m___contains__(self, container, [item], {}, fr)
         raise Unsupported(f"`in` on {container!r}")
 
+    # ============================================================== dicts with symbolic string keys
+    def _pdict_key_cases(self, d: PDict, key):
+        """(concrete key, condition key == that key) for the concrete string keys of d"""
+        kz = str_to_z3(key)
+        out = []
+        for k in d.items:
+            if isinstance(k, str):
+                out.append((k, kz == z3.StringVal(k)))
+        return kz, out
+
+    def pdict_sym_has(self, d: PDict, key):
+        kz, cases = self._pdict_key_cases(d, key)
+        alts = [c for _, c in cases]
+        for ent in d.sym_entries:
+            if not (isinstance(ent[0], str) and ent[0] == "shadow"):
+                alts.append(kz == ent[0])
+        if d.base is not None:
+            alts.append(d.base[0](kz))
+        alts = [a for a in alts if not z3.is_false(z3.simplify(a))]
+        return z3.Or(*alts) if alts else False
+
+    def pdict_sym_get(self, d: PDict, key, fr):
+        """d[key] for a symbolic (or not statically present) string key: a KeyError alternative
+        and the value selected by key equality; values under symbolic keys are strings"""
+        ctx = self.ctx
+        has = self.pdict_sym_has(d, key)
+        hz = z3.BoolVal(has) if isinstance(has, bool) else has
+        if not fr.spec and not ctx.branch(hz, f"dict has key@{fr.line}"):
+            raise mk_exc(KeyError, "key", where=fr.where())
+        kz, cases = self._pdict_key_cases(d, key)
+        # a concrete key that the symbolic key may equal: decided by a case split (its value may be of any kind)
+        for k, cond in cases:
+            if ctx.feasible(cond):
+                if fr.spec:
+                    if not kind_of_strlike(d.items[k]):
+                        continue
+                elif ctx.branch(cond, f"key=={k!r}@{fr.line}"):
+                    return d.items[k]
+        val = d.base[1](kz) if d.base is not None else z3.StringVal("")
+        for ent in d.sym_entries:
+            if isinstance(ent[0], str) and ent[0] == "shadow":
+                continue
+            val = z3.If(kz == ent[0], ent[1], val)
+        if fr.spec:
+            for k, cond in cases:
+                if kind_of_strlike(d.items[k]) == "str":
+                    val = z3.If(cond, str_to_z3(d.items[k]), val)
+        return mk_str(val, "str")
+
+    def pdict_sym_store(self, d: PDict, key, v, fr):
+        ctx = self.ctx
+        if kind_of_strlike(v) != "str":
+            raise Unsupported("value stored under a symbolic dict key must be a text string")
+        kz, cases = self._pdict_key_cases(d, key)
+        unit = getattr(self, "unit_name", "?")
+        for k, cond in cases:
+            if kind_of_strlike(d.items[k]) != "str":
+                # entries that are not text (objects, numbers, tuples) are kept as they are across
+                # loop summaries; that is justified by this obligation: no computed key hits them
+                ctx.prove(f"{unit}.dict-store.misses.{k}", z3.Not(cond), f"a key computed at run time is never {k!r} (whose value is not text)", fr.where(), note="store under a computed dict key")
+                continue
+            if ctx.feasible(cond):
+                if ctx.branch(cond, f"key=={k!r}@{fr.line}"):
+                    d.items[k] = v
+                    return
+        d.sym_entries.append((kz, str_to_z3(v)))
+
     # ============================================================== ASGI messages / Any
     def msg_key(self, msg: SymMsg, key: str):
         if key not in msg.keys:
             present = z3.Bool(f"{msg.name}.has_{key}")
             kind = msg.kinds.get(key, "payload")
+            want = None
+            if "=" in kind:  # "payload=bytes": a message the server itself built, the field has this type
+                kind, want = kind.split("=", 1)
             val = SymAny(f"{msg.name}.{key}", z3.Int(f"{msg.name}.{key}.tag"), bytes_kind=kind)
             self.ctx.assume(z3.And(val.tag >= 0, val.tag < len(ANY_TAGS)))
+            if want:
+                self.ctx.assume(ops.any_tag_is(val, want))
             self.ctx.inputs[f"{msg.name}.has_{key}"] = present
             self.ctx.inputs[f"{msg.name}.{key}.tag"] = val.tag
             msg.keys[key] = (present, val)
